@@ -733,3 +733,129 @@ def _statements_after(fn, node):
         return found
     visit(fn.body)
     return out
+
+
+def elapsed_component(text):
+    """does the symbolic text of a compared quantity use a *component* of a timedelta (`.seconds` / `.microseconds`) in
+    place of the whole duration (`.total_seconds()`, or the timedelta itself)?  `.seconds` drops the days: a limit compared
+    with it stops firing after 24 h.  A text that also mentions `.days` accounts for them and is accepted."""
+    import re
+    return bool(re.search(r"(?<!total_)\.(seconds|microseconds)\b(?!\()", text)) and ".days" not in text
+
+
+_MUTATORS = {"update", "append", "add", "setdefault", "pop", "popitem", "clear", "extend", "remove", "insert", "discard", "sort", "reverse", "__setitem__", "__delitem__"}
+
+
+def class_table_mutations(ci):
+    """[(method, node, table, via)]: places where an *instance* method changes a mutable container that lives on the class
+    (a dict / list / set literal or constructor in the class body) — directly (`self.T[k] = v`, `type(self).T.update(…)`,
+    `Cls.T.append(…)`) or through an instance field that was bound to the class's container without copying
+    (`self.filters = self.BUILTIN_FILTERS` … `self.filters.update(custom)`).  Such a write is shared by every instance:
+    what one object registers changes how all the others behave."""
+    import ast as _a
+
+    def mutable_literal(v):
+        if isinstance(v, (_a.Dict, _a.List, _a.Set, _a.DictComp, _a.ListComp, _a.SetComp)):
+            return True
+        return isinstance(v, _a.Call) and isinstance(v.func, _a.Name) and v.func.id in ("dict", "list", "set", "defaultdict", "OrderedDict", "Counter", "deque")
+    tables = {n for n, v in ci.assigns.items() if v is not None and mutable_literal(v)}
+    if not tables:
+        return []
+
+    def class_table_ref(e):
+        """name of the class table `e` denotes (self.T / cls.T / type(self).T / <ClassName>.T), else None"""
+        if isinstance(e, _a.Attribute) and e.attr in tables:
+            b = e.value
+            if isinstance(b, _a.Name) and b.id in ("self", "cls", ci.name):
+                return e.attr
+            if isinstance(b, _a.Call) and isinstance(b.func, _a.Name) and b.func.id == "type":
+                return e.attr
+            if isinstance(b, _a.Attribute) and b.attr == "__class__":
+                return e.attr
+        return None
+    # instance fields that alias a class table (assigned from it without a copy), and never rebound to a copy elsewhere
+    alias = {}
+    own = set()
+    for m in ci.methods.values():
+        for n in _a.walk(m.node):
+            if isinstance(n, _a.Assign) and len(n.targets) == 1 and isinstance(n.targets[0], _a.Attribute) and isinstance(n.targets[0].value, _a.Name) and n.targets[0].value.id == "self":
+                f = n.targets[0].attr
+                v = n.value
+                # `self.T or {}` / `x if c else self.T`: may alias
+                cands = [v] + ([*v.values] if isinstance(v, _a.BoolOp) else []) + ([v.body, v.orelse] if isinstance(v, _a.IfExp) else [])
+                t = next((class_table_ref(c) for c in cands if class_table_ref(c)), None)
+                if t and f not in tables:
+                    alias[f] = t
+                elif f in tables:
+                    own.add(f)          # the instance gets its own attribute of the same name: later self.T is the instance's
+    out = []
+    for m in ci.methods.values():
+        if m.name in ("__init_subclass__", "__class_getitem__"):
+            continue
+        is_cm = any(isinstance(d, _a.Name) and d.id == "classmethod" for d in getattr(m.node, "decorator_list", []))
+        for n in _a.walk(m.node):
+            tgt = None
+            if isinstance(n, _a.Call) and isinstance(n.func, _a.Attribute) and n.func.attr in _MUTATORS:
+                tgt = n.func.value
+            elif isinstance(n, (_a.Assign, _a.AugAssign, _a.Delete)):
+                ts = n.targets if isinstance(n, (_a.Assign, _a.Delete)) else [n.target]
+                for t_ in ts:
+                    if isinstance(t_, _a.Subscript):
+                        tgt = t_.value
+            if tgt is None:
+                continue
+            t = class_table_ref(tgt)
+            if t and not (isinstance(tgt.value, _a.Name) and tgt.value.id == "self" and t in own):
+                if is_cm:
+                    continue            # a classmethod that maintains a class registry says so
+                out.append((m, n, t, "directly"))
+                continue
+            if isinstance(tgt, _a.Attribute) and isinstance(tgt.value, _a.Name) and tgt.value.id == "self" and tgt.attr in alias:
+                out.append((m, n, alias[tgt.attr], f"through self.{tgt.attr}, bound to the class's table without a copy"))
+    return out
+
+
+def datetime_awareness(e, fi, res, _depth=0):
+    """'naive' / 'aware' / None (unknown) for an expression that yields a datetime: `datetime.now()` / `utcnow()` /
+    `datetime(…)` without tzinfo are offset-naive, `datetime.now(tz)` / `datetime.now(timezone.utc)` / `fromtimestamp(x, tz)`
+    are offset-aware; a local name or a `self.<field>` takes the kind of everything assigned to it (mixed ⇒ None)."""
+    import ast as _a
+    if _depth > 4:
+        return None
+    if isinstance(e, _a.Call):
+        d = dotted(e.func) or ""
+        last = d.split(".")[-1]
+        if last == "utcnow" or (last == "now" and not e.args and not any(k.arg in ("tz", None) for k in e.keywords)):
+            return "naive"
+        if last == "now" and (e.args or any(k.arg == "tz" for k in e.keywords)):
+            a0 = e.args[0] if e.args else next(k.value for k in e.keywords if k.arg == "tz")
+            return "naive" if isinstance(a0, _a.Constant) and a0.value is None else "aware"
+        if last in ("fromtimestamp",):
+            return "aware" if len(e.args) > 1 or any(k.arg == "tz" for k in e.keywords) else "naive"
+        if last == "astimezone":
+            return "aware"
+        if last == "replace" and any(k.arg == "tzinfo" for k in e.keywords):
+            k = next(k for k in e.keywords if k.arg == "tzinfo")
+            return "naive" if isinstance(k.value, _a.Constant) and k.value.value is None else "aware"
+        return None
+    if isinstance(e, _a.Attribute) and d_is_now_factory(e):
+        return "naive"
+    kinds = set()
+    if isinstance(e, _a.Name):
+        for n in _a.walk(fi.node):
+            if isinstance(n, _a.Assign) and any(isinstance(t, _a.Name) and t.id == e.id for t in n.targets):
+                kinds.add(datetime_awareness(n.value, fi, res, _depth + 1))
+    elif is_self_attr(e) and fi.cls is not None:
+        for m in fi.cls.methods.values():
+            for n in _a.walk(m.node):
+                if isinstance(n, _a.Assign) and any(is_self_attr(t, e.attr) for t in n.targets):
+                    kinds.add(datetime_awareness(n.value, m, res, _depth + 1))
+                if isinstance(n, _a.AnnAssign) and is_self_attr(n.target, e.attr) and n.value is not None:
+                    kinds.add(datetime_awareness(n.value, m, res, _depth + 1))
+    kinds.discard(None) if len(kinds) > 1 and None in kinds else None
+    return kinds.pop() if len(kinds) == 1 else None
+
+
+def d_is_now_factory(e):
+    """`datetime.now` (uncalled) used as a default_factory: naive"""
+    return (dotted(e) or "").endswith("datetime.now") or (dotted(e) or "") == "datetime.now"
